@@ -909,14 +909,27 @@ def rule_yaml_safe(ctx, rid):
                                lambda el, v: v in (('call', 'builtins.list', (el,), ()), ('meth', 'tolist', el, (), ()))),
             'builtins.dict': ('nested dicts are converted recursively',
                               lambda el, v: v[0] == 'call' and v[1] == fi.qualname and el in set(subterms(v)))}
+    KINDS = set(want)
+
+    def live_kinds(tests):
+        # which kinds of value reach this case: the isinstance tests of the path (single types or tuples of types,
+        # taken or not taken) narrow {ndarray, tuple, dict, anything else}
+        live = set(KINDS) | {'other'}
+        for tys, truth, el in tests:
+            known = set(tys) & KINDS
+            if truth:
+                live &= known | ({'other'} if set(tys) - KINDS else set())
+            else:
+                live -= known
+        return live
     for ty, (text, ok) in want.items():
         c = 'YAML-safe export: ' + text
         hit = None
         for tests, val in cases:
-            pos = [t for t in tests if t[1] and ty in t[0]]
-            neg_before = all((not t[1]) or ty in t[0] for t in tests)
-            if pos and neg_before:
-                hit = (pos[0][2], val)
+            els = [t[2] for t in tests]
+            if ty in live_kinds(tests) and els:
+                if hit is None or not ok(els[0], val):
+                    hit = (els[0], val)
         if hit is None:
             ctx.violation(rid, fi, c, 'no conversion for %s: such option values cannot be written / read back' % ty)
         elif ok(hit[0], hit[1]):
